@@ -386,7 +386,7 @@ func c01(c *core.Ctx) {
 		}
 		ls := core.NewLockSets(fns)
 		lockOf := map[string]string{}
-		for tk, locks := range guardTable {
+		for tk, locks := range guardTableOf(p) {
 			tn := tk[strings.Index(tk, ".")+1:]
 			for lk, fs := range locks {
 				for _, f := range fs {
